@@ -214,8 +214,9 @@ GenStaking(s) ==
 GenFaults(s) ==
     UNION {LET o == OrderOf(s, sh.order) IN
            {[E0 EXCEPT !.kind = "ReportFaults", !.creator = r, !.provider = sh.sp,
-                       !.faults = <<[data |-> o.data, order |-> o.id, shard |-> sid, commit |-> c, provider |-> sh.sp]>>] :
-               r \in {"a03", "a01"}, sid \in {sh.id, sh.id + 1}, c \in {"c99", o.commit}}
+                       !.faults = <<[data |-> dd, order |-> o.id, shard |-> sid, commit |-> c, provider |-> sh.sp]>>] :
+               r \in {"a03", "a01"}, sid \in {sh.id, sh.id + 1}, c \in {"c99", o.commit},
+               dd \in {o.data} \cup {m.data : m \in Rng(s.metas)}}   \* also the data id of another existing model
            \cup {[E0 EXCEPT !.kind = "RecoverFaults", !.creator = r, !.provider = sh.sp,
                             !.faults = <<[data |-> o.data, order |-> o.id, shard |-> sh.id, commit |-> o.commit, provider |-> sh.sp]>>] :
                    r \in {sh.sp, "a03"}}
